@@ -62,7 +62,8 @@ def run(ctx):
     impl3, _ = readsched_corr(ctx, corr, rng, fs_streams, 3, faults=True)
     for cid, res in impl3.items():
         if any(l.startswith(('PANIC', 'ABORT', 'HANG', 'SKIPPED-AFTER-HANGS')) for l in (res or ['ABORT'])):
-            corr.oracle_failures.append((cid, 'reader %s under an injected stream fault' % (res or ['ABORT'])[0], {'mode': 'readsched', 'case': cid}))
+            corr.oracle_failures.append((cid, 'reader %s on a stream read through short reads / injected faults (case %s of the read-schedule run)' % ((res or ['ABORT'])[0], cid),
+                                         {'mode': 'readsched', 'case': cid, 'fields': getattr(corr, 'sched_cases', {}).get(cid), 'rerun': 'pvh readsched <file: x <fields...>>'}))
     # a fault at EVERY read call of small replays, under every option set: the read must fail (never a game from partial reads)
     small = [synth.emit(synth.gen_wf(rng, nframes=rng.choice([0, 1, 2]), gecko=0)) for _ in range(6 if thorough else 3)]
     sweep = []
